@@ -587,6 +587,10 @@ def compare(paths, rows, nonneg=True, extra_consts=(), variant_domain=None, cons
     pconds = [[norm_atom(c) for c in p.conds] for p in ps]
     atoms = [a for cs in pconds for a in cs] + [g for r in rows for g in r.guards]
     atoms += [norm_atom(c) for c in constraints if not callable(c)]
+    # small constants subtracted on a path under a no-underflow assumption take part in the case split (see below)
+    extra_consts = tuple(extra_consts) + tuple(sorted({ob[2][1] for p in ps for ob in (getattr(p, "assumed", ()) or ())
+                                                       if ob[0] == "nounder" and isinstance(ob[2], tuple) and ob[2][0] == "int"
+                                                       and isinstance(ob[2][1], int) and 0 < ob[2][1] <= 4}))
     mism = []
     n = 0
     decided = 0
@@ -610,4 +614,20 @@ def compare(paths, rows, nonneg=True, extra_consts=(), variant_domain=None, cons
             m = outcome_matches(p, row, case)
             if m:
                 mism.append(Mismatch(case, "row %r: %s" % (row.name, m), p, row))
+                continue
+            # the path enumerator walks past an unsigned subtraction assuming it does not wrap and records that assumption; in a
+            # case where the operands are known and the subtrahend is larger, the path panics (overflow checks on: debug builds,
+            # const evaluation) or continues with a wrapped value - either way not what the reference row describes
+            if row.kind in ("return", "any") and p.kind == "return":
+                for ob in getattr(p, "assumed", ()) or ():
+                    if ob[0] != "nounder":
+                        continue
+                    try:
+                        va, vb = case.val(strip_gargs(ob[1])), case.val(strip_gargs(ob[2]))
+                    except (KeyError, TypeError):
+                        continue
+                    if va < vb:
+                        mism.append(Mismatch(case, "row %r: the path computes %s - %s, which underflows in this case (panics with overflow "
+                                                   "checks / in const evaluation, wraps otherwise)" % (row.name, sym.show(ob[1]), sym.show(ob[2])), p, row))
+                        break
     return mism, n, decided
